@@ -7,6 +7,7 @@ CONSTANTS Names,        \* user state names, a sequence, e.g. <<"A","B">>
           MaxCalls, MaxVeto, MaxRel,
           UseAfter,     \* include After relations in the schema space
           UseFlags,     \* include Auto / Multi flags
+          FaultMode,    \* first call carries one handler fault (panic or stall), no vetoes
           ShardMod, ShardIdx   \* shard the schema space over TLC processes
 
 NameSet == SSet(Names)
@@ -75,12 +76,20 @@ MCInit ==
   \E s \in SchemaSpace : \E t \in TopoSet(s, Index) : \E h \in HandlerSpace :
      InitWith(s, Index, t, h)
 
+FaultSpace == {<<1, h>> : h \in NegNames \cup FinNames}
+
 MCNext ==
   \/ /\ ncalls < MaxCalls
      /\ \E type \in {"add", "remove", "set"} : \E called \in CalledLists :
         \E check \in BOOLEAN :
            /\ (check => type # "set")
-           /\ Call(type, called, check, {}, <<>>)
+           /\ IF FaultMode /\ ncalls = 0 /\ hs.on
+              THEN /\ ~check
+                   /\ \E f \in FaultSpace : \E kind \in {"pan", "stall"} :
+                        CallF(type, called, FALSE, {}, <<>>,
+                              IF kind = "pan" THEN {f} ELSE {},
+                              IF kind = "stall" THEN {f} ELSE {})
+              ELSE Call(type, called, check, {}, <<>>)
   \/ \E v \in {w \in SUBSET NegCandidates : Cardinality(w) <= MaxVeto} : StepV(v)
   \/ Return
 
@@ -90,7 +99,7 @@ MCSpec == MCInit /\ [][MCNext]_vars
 (* and the few observation fields later formulas read (prev/obs projections); *)
 (* the bulky observation records themselves are hidden from the fingerprint.  *)
 ObsProj(x) == IF x.kind = "tx" THEN <<x.accepted, x.mut, x.tb, x.ta, x.after>> ELSE <<x.kind>>
-MCView == <<sch, topo, hs, active, clock, qtick, queue, running, first,
+MCView == <<sch, topo, hs, active, clock, qtick, queue, running, first, pan, stall, wedged,
             atCall, ncalls, verdict, ObsProj(obs), ObsProj(prev),
             IF firstTx = None THEN <<>> ELSE <<firstTx.after, firstTx.target>>>>
 
